@@ -367,7 +367,11 @@ func Run(r *fw.Run) {
 			c.Skip() // exposure analysis refuses admin policies
 		}
 		stop := c.Choose(2, "stopOnError") == 1
-		n := c.Choose(3, "number of injected documents")
+		maxN := 3
+		if !r.Quick() {
+			maxN = 4 // thorough tier: up to three injected documents (strided)
+		}
+		n := c.Choose(maxN, "number of injected documents")
 		cs := Case{WI: wi, Stop: stop, Command: cmd}
 		prev := -1
 		for k := 0; k < n; k++ {
@@ -385,6 +389,9 @@ func Run(r *fw.Run) {
 		}
 		if r.Quick() && n == 2 {
 			c.Stride(6)
+		}
+		if n == 3 {
+			c.Stride(60)
 		}
 		var js []string
 		for k, ji := range cs.Junk {
